@@ -11,6 +11,10 @@ CONSTANTS
   MaxRstLife = 3
   MaxRstAbusive = 2
   MaxRstEmitted = 2
+  MaxRstQueued = 200
+  MaxPingLife = 1000
+  MaxSettingsLife = 1000
+  OddSids = {1, 3, 5}
   MaxDepth = 4
   MaxValid = 0
   Deviations = {}
